@@ -110,10 +110,14 @@ def floatLexOk (cs : List Char) : Bool :=
   | _ => false
 
 def assignKeywords : List String :=
-  ["phi", "alloc", "load", "cast", "call", "literal", "volatile", "undefined"]
+  ["phi", "alloc", "load", "cast", "call", "literal", "volatile", "undefined", "float"]
+
+/-- the printed form of a float constant is read back as one token: a FLOAT literal, or (inf, nan) a quoted string -/
+def floatTextOk (fmt : Nat → List Char) (b : Nat) : Bool :=
+  if nonFinite b then (fmt b).all isStrChar else floatLexOk (fmt b)
 
 def instrText (fmt : Nat → List Char) : Instr → Bool
-  | .const _ _ (.fbits b) => floatLexOk (fmt b)
+  | .const _ _ (.fbits b) => floatTextOk fmt b
   | .binop _ _ .rol a _ => !assignKeywords.contains (opName a)
   | .binop _ _ .ror a _ => !assignKeywords.contains (opName a)
   | _ => true
@@ -153,7 +157,7 @@ def fragReport (fmt : Nat → List Char) (m : Module) : List String :=
     (if f.blocks.all (fun b => noEarlyTerminator b.instrs) then [] else ["early-terminator"]) ++
     (if (f.blocks.head?.map (·.name)) == some f.entry then [] else ["entry"]) ++
     (if is.all (fun i => nodupB (i.phiIns.map (·.1))) then [] else ["phi-keys"]) ++
-    (if is.all (fun i => match i with | .const _ _ (.fbits b) => floatLexOk (fmt b) | _ => true) then []
+    (if is.all (fun i => match i with | .const _ _ (.fbits b) => floatTextOk fmt b | _ => true) then []
      else ["float-text"]) ++
     (if is.all (fun i => match i with | .const _ _ (.fbits _) => true | _ => instrText fmt i) then []
      else ["rol-keyword"]) ++
